@@ -237,6 +237,10 @@ let handle line =
       let ((b, r), o) = BufModel.number_to_str (z_of_hex bits) u (int_to_z (int_of_string len)) in
       if o then "N2S OVERFLOW" else
       Printf.sprintf "N2S %s %d" (S.concat "" (L.map (function Some z -> Printf.sprintf "%02x" (z_to_int z) | None -> "--") b)) (z_to_int r)
+  | ["LAYOUT"; digits; decpt; prec; neg] ->
+      let ds = L.init (S.length digits) (fun i -> int_to_z (Char.code digits.[i])) in
+      let (out, oob) = Dtostre.layout ds (int_to_z (int_of_string decpt)) (int_to_z (int_of_string prec)) (neg = "1") in
+      Printf.sprintf "LAYOUT %s %d" (hexz out) (bi oob)
   | ["EXPR"; bh; idx; cap] ->
       let open ExprModel in
       let body = unhex bh in
